@@ -12,6 +12,17 @@ inline psy::C::ParseOptions makeOpts(const std::string& d)
     using namespace psy::C;
     int std_ = 2, kr = 1; unsigned long mask = 0;
     int cm = -1, dm = -1;
+    if (!d.empty() && d[0] == 'D') {
+        // "D<std>:<cm>:<dm>": what the cnip driver builds: ParseOptions{LanguageDialect(std)} with default extensions
+        int s_ = 2;
+        sscanf(d.c_str() + 1, "%d:%d:%d", &s_, &cm, &dm);
+        LanguageDialect::Std sd = s_ == 0 ? LanguageDialect::Std::C89_90 : s_ == 1 ? LanguageDialect::Std::C99
+                                : s_ == 2 ? LanguageDialect::Std::C11 : LanguageDialect::Std::C17_18;
+        ParseOptions po{LanguageDialect(sd)};
+        if (cm >= 0) po.setCommentMode((ParseOptions::CommentMode)cm);
+        if (dm >= 0) po.setDisambiguationMode((ParseOptions::DisambiguationMode)dm);
+        return po;
+    }
     {
         std::istringstream is(d); std::string a;
         std::vector<std::string> parts;
